@@ -105,7 +105,7 @@ From Packet Require Import DecInterest EncInterest.
 
 Definition signer_int_ok (sg : option signer) : Prop :=
   match sig_active sg with
-  | Some s => match sg_time s with Some ms => (0 <= ms)%Z /\ (ms * 1000000 < two63z)%Z | None => True end /\
+  | Some s => match sg_time s with Some ms => (- two63z <= ms * 1000000 < two63z)%Z | None => True end /\
               match sg_seq s with Some x => x < two64 | None => True end
   | None => True
   end.
@@ -121,9 +121,9 @@ Proof.
   destruct (sg_nb s), (sg_na s); try discriminate.
   intros H Hk [Ht Hq].
   assert (Htime : match option_map (fun ms : Z => wrap_int (ms * 1000000)) (sg_time s) with Some d => dur_wf d | None => True end).
-  { destruct (sg_time s) as [ms|]; cbn; [|exact I]. destruct Ht as [H0 H1]. unfold two63z in H1.
+  { destruct (sg_time s) as [ms|]; cbn; [|exact I]. unfold two63z in Ht.
     assert (Hw : wrap_int (ms * 1000000) = (ms * 1000000)%Z) by (unfold wrap_int, two63z, two64z; rewrite Z.mod_small by lia; lia).
-    rewrite Hw. unfold dur_wf, two63z. repeat split; try lia. }
+    rewrite Hw. unfold dur_wf, two63z. split; [apply Z.mod_mul; lia|lia]. }
   destruct (sg_type s =? 0)%Z.
   - destruct (253 <=? sg_est s); [discriminate|]. inversion H; subst. unfold opt_si_wf, si_wf. cbn [si_type si_kl si_time si_seq si_unmodelled]. repeat split; auto using uint64_of_bound.
   - destruct (sg_key s) as [k|]; [|discriminate]. destruct (253 <=? sg_est s); [discriminate|]. inversion H; subst.
